@@ -20,8 +20,10 @@ EXPLANATION = (
     'optional parse that may overwrite them. C16-sign: both zone offsets are parsed with the '
     'inverted sign, rule times with the natural sign. C16-end: every accepting return requires the '
     'cursor to be at the terminating NUL; a leading colon is rejected; an unquoted abbreviation has '
-    'at least three characters. C16-nul: digit lookups exclude the terminating NUL. C16-ovf: the '
-    'digit accumulation is guarded against int overflow before each multiply/add. C16-lex: the parser '
+    'at least three characters and a quoted <...> one is subject to no minimum length (acceptance is '
+    'exact in both directions). C16-nul: digit lookups exclude the terminating NUL. C16-ovf: the '
+    'digit accumulation is guarded against int overflow before each multiply/add (or, written as one '
+    'fused step value*10+d, bounded as a whole by dominating tests). C16-lex: the parser '
     'reaches no C-library conversion routine (strtol, sscanf, isspace, ...) whose acceptance rules '
     'differ from the grammar. Does not decide '
     'equivalence of the accepted language with the grammar beyond these clauses.')
